@@ -919,8 +919,16 @@ zix_btree_lower_bound(const ZixBTree* const     t,
       // Found on a previous level but went too far
       ti->level = found_level;
     } else {
-      // Reached end (key is greater than everything in tree)
-      *ti = zix_btree_end_iter;
+      // Key is greater than everything in this leaf, move up to the next value
+      while (ti->level > 0U &&
+             ti->indexes[ti->level] == ti->nodes[ti->level]->n_vals) {
+        zix_btree_iter_pop(ti);
+      }
+
+      if (ti->indexes[ti->level] == ti->nodes[ti->level]->n_vals) {
+        // Reached end (key is greater than everything in tree)
+        *ti = zix_btree_end_iter;
+      }
     }
   }
 
